@@ -21,6 +21,9 @@ params (all JSON-able):
   faults / fault_apis / errs       fault alphabet (Cluster.fault_alts);  leader_move: [partitions] (budget f)
   inject_seek: [p, o]              a seek(p, o) that the explorer may place at any choice point (budgets r / p)
                                    between assignment and the first delivery from p
+  combos: [[start, [cuts...]], ...]  (C08) before the program: for each pair seek(0, start), serve responses by the cut
+                                   plan, poll until position() has passed everything the broker serves
+  codec: None | "py"               run the consumer on the pure-Python record readers
   waiter_order: fifo | lifo         order in which blocked getone()/getmany() callers are woken (the library iterates a set)
   expect_oor: {"0": n}              the committed offset when it lies outside the log (position() may report it until the
                                    broker has answered OFFSET_OUT_OF_RANGE)
@@ -51,6 +54,10 @@ class ConsumerCluster(Cluster):
     storm = False
     cps_mark = 0
 
+    def __init__(self, *a, **kw):
+        super().__init__(*a, **kw)
+        self.data_fetches = []  # fetch positions of every Fetch that was answered with data
+
     def _fetch_body(self, conn, req, forced):
         self.fetch_count += 1
         if self.fetch_count == self.fetch_cap // 4:
@@ -77,6 +84,9 @@ class ConsumerCluster(Cluster):
             self.fetch_batch_limit = saved
         if any_data and plan is not None and self.one_shot is None:
             self.cut_i += 1
+        if any_data:
+            self.data_fetches.append(tuple((td["topic"], pd["partition"], pd["fetch_offset"])
+                                           for td in req.body["topics"] for pd in td["partitions"]))
         return body, any_data, any_error
 
 
@@ -128,6 +138,8 @@ class ConsumerScenario:
         self._cut_cache = {}
 
     def fail(self, oracle, sig, msg):
+        if any(o == oracle and s == sig for o, s, _ in self.violations):
+            return  # one report per signature and execution (the explorer re-runs the execution for every report)
         self.violations.append((oracle, sig, msg))
 
     def rec(self, *a):
@@ -161,7 +173,7 @@ class ConsumerScenario:
                 end = sp.end
                 served_end = end
             else:
-                tl = conslogs.TxnLog(spec["txn"], part, spec.get("removed", ()))
+                tl = conslogs.TxnLog(spec["txn"], part, spec.get("removed", ()), spec.get("emptied", ()))
                 tl.install(cl, "t", part)
                 visible = tl.expected(committed_only, 0)
                 end = tl.end
@@ -196,6 +208,24 @@ class ConsumerScenario:
             world.extra_alts.append(self.cut_alts)
         if p.get("inject_seek"):
             world.extra_alts.append(self.inject_alts)
+        self._unpatch = None
+        if p.get("codec") == "py":
+            # run the consumer on the pure-Python record readers instead of the compiled ones
+            import aiokafka.consumer.fetcher as fmod
+            import aiokafka.record.default_records as dr
+            import aiokafka.record.legacy_records as lr
+            import aiokafka.record.memory_records as mr
+
+            saved = (fmod.MemoryRecords, mr.DefaultRecordBatch, mr.LegacyRecordBatch)
+            fmod.MemoryRecords = mr._MemoryRecordsPy
+            mr.DefaultRecordBatch = dr._DefaultRecordBatchPy
+            mr.LegacyRecordBatch = lr._LegacyRecordBatchPy
+
+            def unpatch():
+                fmod.MemoryRecords, mr.DefaultRecordBatch, mr.LegacyRecordBatch = saved
+                self._unpatch = None
+
+            self._unpatch = unpatch
         world.main_task = world.spawn("c", self.main)
 
     # ---- scenario-specific alternatives -------------------------------------------------------------------
@@ -296,6 +326,8 @@ class ConsumerScenario:
         parts = sorted(int(k) for k in p["logs"])
         consumer.assign([self.tp(i) for i in parts])
         self.rec("assigned", tuple(parts))
+        if p.get("combos"):
+            await self.run_combos()
         tasks = [world.spawn("c", self.prog_task, i, prog) for i, prog in enumerate(p.get("program", []))]
         injector = None
         if p.get("inject_seek"):
@@ -323,6 +355,39 @@ class ConsumerScenario:
             await asyncio.wait_for(consumer.stop(), 5.0)
         except Exception as e:  # noqa: BLE001
             self.stop_error = repr(e)
+
+    async def run_combos(self):
+        """C08 input sweep inside one run: for every (start offset, cut plan) seek there, poll until the position has
+        passed everything the broker serves, and let the reference reader judge what came back."""
+        world = self.world
+        cl = self.cluster
+        c = self.consumer
+        tl = self.truth["txn"][0]
+        tp = self.tp(0)
+        committed_only = self.committed_only
+        for k, (s0, cut) in enumerate(self.p["combos"]):
+            cl.cut_plan = list(cut)
+            cl.cut_i = 0
+            n0 = len(cl.data_fetches)
+            c.seek(tp, s0)
+            self.rec("seek", 0, s0, f"combo{k}")
+            maxpolls = len(tl.batches) + 3
+            polls = 0
+            pos = None
+            while polls < maxpolls:
+                await self.do_call("c", k, ["getmany", {"t": 100}], timeout=2.0)
+                polls += 1
+                try:
+                    pos = await asyncio.wait_for(c.position(tp), 1.0)
+                except asyncio.TimeoutError:
+                    pos = None
+                    continue
+                self.rec("pos", "c", k, 0, pos, False)
+                if not tl.has_served_from(pos, committed_only):
+                    break
+            fetched = [x[0][2] for x in cl.data_fetches[n0:]]
+            self.rec("combo-end", 0, k, s0, tuple(cut), pos, polls, tuple(fetched))
+        cl.cut_plan = None
 
     async def injector(self):
         world = self.world
@@ -432,6 +497,8 @@ class ConsumerScenario:
 
     # ---- end-of-run oracles ----------------------------------------------------------------------------------
     def finish(self, world):
+        if self._unpatch is not None:
+            self._unpatch()
         if world.capped:
             return
         mt = world.main_task
@@ -455,6 +522,8 @@ class ConsumerScenario:
         self.model = m
 
     def outcome(self):
+        if self._unpatch is not None:
+            self._unpatch()
         hist = tuple(e for e in self.h if e[0] in ("ret", "raised", "pos", "seek", "timeout"))
         return h64((hist, len(self.cluster.arrivals)))
 
@@ -539,6 +608,8 @@ class Model:
                 self.on_position(ev)
             elif kind == "raised":
                 self.on_raised(ev)
+            elif kind == "combo-end":
+                self.on_combo_end(ev)
 
     def on_seek(self, part, o):
         t = self.truth[part]
@@ -620,13 +691,36 @@ class Model:
         if self.oor[part] is not None and value == self.oor[part] and self.returned_since[part] == 0:
             return  # the broker has not reported the sought offset out of range yet
         nxt = self.next_visible(part, start)
-        upper = nxt if nxt is not None else max(self.truth[part]["end"], start)
+        # nothing visible left: records at/after the end of what is served (LSO for read_committed, else the high
+        # watermark) become visible later, a position beyond that point would skip them
+        upper = nxt if nxt is not None else max(self.truth[part]["served_end"], start)
         if not start <= value <= upper:
             what = "position-behind" if value < start else "position-ahead"
             self.fail("position", {"what": what, "sought": self.sought[part] and self.returned_since[part] == 0},
                       f"{where} returned {value}; allowed [{start}, {upper}] (one past the last returned record / seek target "
                       f".. next visible unreturned record)")
         # position() does not move the reference
+
+    def on_combo_end(self, ev):
+        _, part, k, s0, cut, pos, polls, fetched = ev
+        tl = self.scn.truth["txn"][part]
+        committed_only = self.scn.committed_only
+        where = f"start offset {s0}, responses of {list(cut)} batches"
+        iso = self.scn.p.get("isolation", "read_uncommitted")
+        nxt = self.next_visible(part, self.pos[part])
+        if nxt is not None:
+            self.fail("liveness", {"what": "served-record-not-delivered", "isolation": iso, "kind": tl.kind_at(nxt)},
+                      f"{where}: record at {nxt} was served but never delivered ({polls} polls, position {pos})")
+        if pos is None or tl.has_served_from(pos, committed_only):
+            at = tl.kind_at(pos) if pos is not None else "no-position"
+            self.fail("stall", {"what": "position-not-past-served-data", "isolation": iso, "stuck_at": at},
+                      f"{where}: after {polls} polls position() is {pos} but the broker still serves a batch there ({at}); "
+                      f"fetch positions answered with data: {list(fetched)}")
+        worst = max((fetched.count(x) for x in set(fetched)), default=0)
+        if worst > 2:
+            off = max(set(fetched), key=fetched.count)
+            self.fail("stall", {"what": "same-fetch-repeated", "isolation": iso, "stuck_at": tl.kind_at(off)},
+                      f"{where}: Fetch at offset {off} was answered with data {worst} times: {list(fetched)}")
 
     def on_raised(self, ev):
         _, task, idx, name, etype, msg = ev
